@@ -671,7 +671,7 @@ def unhex(s):
 # generic line-oriented correspondence
 # --------------------------------------------------------------------------
 def correspond(chk, cases, model_exe, impl_exe, oracle=None, what="", nontrivial=None, timeout=900, env=None,
-               max_report=3):
+               max_report=3, compare=True):
     """cases: list of (line, kind).  Each line starts with a unique id token; both executables print one
     line per case starting with the same id.  The model's and the implementation's lines must be equal.
     oracle(line, impl_line) -> None | str : implementation-side property oracle (independent of the model);
@@ -680,8 +680,9 @@ def correspond(chk, cases, model_exe, impl_exe, oracle=None, what="", nontrivial
     without oracle failure is reported as no-failing-input-found.
     Returns (n_mismatch, n_oracle_fail)."""
     lines = [c[0].rstrip("\n") + "\n" for c in cases]
-    m_out, m_err = run_sharded(model_exe, lines, timeout=timeout)
     i_out, i_err = run_sharded(impl_exe, lines, timeout=timeout, env=env)
+    # compare=False: oracle-only exploration (no second executable to compare with)
+    m_out, m_err = run_sharded(model_exe, lines, timeout=timeout) if compare else (i_out, [])
     mism = orf = 0
     for idx, rc, se in i_err:
         # the implementation crashed / sanitizer report: that is a failing input by itself
